@@ -715,8 +715,13 @@ class DBusObjectHandler :
         """
         d = {}
 
+        # strictly beneath objectPath: compare against the '/'-terminated
+        # prefix so that a sibling such as /a/bc is not taken for a child
+        # of /a/b
+        prefix = objectPath.rstrip('/') + '/'
+
         for p in sorted(self.exports.keys()):
-            if not p.startswith(objectPath) or p == objectPath:
+            if not p.startswith(prefix) or p == objectPath:
                 continue
             o = self.exports[p]
             i = {}
